@@ -22,3 +22,39 @@ func (o *Once) Do(f func()) {
 		f()
 	}
 }
+
+// Pool replaces sync.Pool: a LIFO free list (one of the behaviours the real pool may show; it never
+// drops an item, which is the case that makes a premature Put visible). Get and Put are scheduling
+// points; what Get returns is the identity of the Put it took the item from, which the atomic hook
+// records in the history of the vthread.
+type Pool struct {
+	New   func() any
+	items []any
+	owner *vsched.Sched // the execution the items belong to: a package-level pool starts empty in every execution
+}
+
+func (p *Pool) enter() {
+	if p.owner != vsched.S {
+		p.owner, p.items = vsched.S, nil
+	}
+	vsched.AtomicRead(p)
+	vsched.AtomicWrite(p, false)
+}
+
+func (p *Pool) Get() any {
+	p.enter()
+	if n := len(p.items); n > 0 {
+		x := p.items[n-1]
+		p.items = p.items[:n-1]
+		return x
+	}
+	if p.New != nil {
+		return p.New()
+	}
+	return nil
+}
+
+func (p *Pool) Put(x any) {
+	p.enter()
+	p.items = append(p.items, x)
+}
